@@ -449,6 +449,39 @@ Section Vals.
 End Vals.
 
 (* ---------------------------------------------------------------- one operation *)
+Lemma list_edit_wf : forall S D tid fd lro o vs vs' out,
+  refl_wf_vals (refl_wf S) fd vs = true ->
+  match o with LSet _ v | LAppend v => wfarg S fd v = true | _ => True end ->
+  refl_list_edit D tid fd lro o vs = (Some vs', out) ->
+  refl_wf_vals (refl_wf S) fd vs' = true.
+Proof.
+  intros S D tid fd lro o vs vs' out Hold Harg E. unfold refl_list_edit in E.
+  destruct o.
+  - inversion E.
+  - destruct (nth_error _ _); inversion E.
+  - destruct (_ <? _); inversion E; subst. apply wfv_replace; auto.
+  - destruct lro; inversion E; subst. apply wfv_app; auto.
+  - destruct lro; [inversion E|]. destruct (_ <=? _); inversion E; subst. apply wfv_firstn; auto.
+  - destruct lro; [inversion E|]. destruct (refl_kind_is_msg _); inversion E; subst.
+    apply wfv_app; auto. apply wfarg_empty.
+  - destruct (f_kind fd); inversion E.
+Qed.
+
+Lemma map_edit_wf : forall S fd mro o es es' out,
+  refl_wf_vals (refl_wf S) fd es = true ->
+  match o with MSet _ v => wfarg S fd v = true | _ => True end ->
+  refl_map_edit fd mro o es = (Some es', out) ->
+  refl_wf_vals (refl_wf S) fd es' = true.
+Proof.
+  intros S fd mro o es es' out Hold Harg E. unfold refl_map_edit in E.
+  destruct o; try (inversion E; fail).
+  - destruct mro; inversion E; subst. apply wfv_map_put; auto.
+  - destruct mro; inversion E; subst. apply wfv_map_del; auto.
+  - destruct mro; [inversion E|]. destruct (refl_kind_is_msg _); [|inversion E].
+    destruct (refl_map_get _ _); inversion E; subst. apply wfv_map_put; auto. apply wfarg_empty.
+  - destruct (f_kind fd) as [[]| |]; inversion E.
+Qed.
+
 Lemma list_op_wf : forall S D tid md fd lro o fs fs' out,
   WFm S md fs -> msg_find_field md (f_num fd) = Some fd ->
   match o with LSet _ v | LAppend v => wfarg S fd v = true | _ => True end ->
@@ -457,17 +490,9 @@ Proof.
   intros S D tid md fd lro o fs fs' out H Hfd Harg E.
   pose proof (wf_fget S md fs (f_num fd) fd H Hfd) as Hold.
   unfold refl_list_op in E.
-  destruct o.
-  - inversion E; subst; auto.
-  - destruct (nth_error _ _); inversion E; subst; auto.
-  - destruct (_ <? _); inversion E; subst; auto. apply wfm_store; auto. apply wfv_replace; auto.
-  - destruct lro; inversion E; subst; auto. apply wfm_store; auto. apply wfv_app; auto.
-  - destruct lro; [inversion E; subst; auto|].
-    destruct (_ <=? _); inversion E; subst; auto. apply wfm_store; auto. apply wfv_firstn; auto.
-  - destruct lro; [inversion E; subst; auto|].
-    destruct (refl_kind_is_msg _); inversion E; subst; auto.
-    apply wfm_store; auto. apply wfv_app; auto. apply wfarg_empty.
-  - destruct (f_kind fd); inversion E; subst; auto.
+  destruct (refl_list_edit D tid fd lro o (msg_fget fs (f_num fd))) as [[vs'|] out'] eqn:Ee;
+    inversion E; subst; auto.
+  apply wfm_store; auto. eapply list_edit_wf; eauto.
 Qed.
 
 Lemma map_op_wf : forall S md fd mro o fs fs' out,
@@ -478,14 +503,9 @@ Proof.
   intros S md fd mro o fs fs' out H Hfd Harg E.
   pose proof (wf_fget S md fs (f_num fd) fd H Hfd) as Hold.
   unfold refl_map_op in E.
-  destruct o; try (inversion E; subst; auto; fail).
-  - destruct mro; inversion E; subst; auto. apply wfm_store; auto. apply wfv_map_put; auto.
-  - destruct mro; inversion E; subst; auto. apply wfm_store; auto. apply wfv_map_del; auto.
-  - destruct mro; [inversion E; subst; auto|].
-    destruct (refl_kind_is_msg _); [|inversion E; subst; auto].
-    destruct (refl_map_get _ _); inversion E; subst; auto.
-    apply wfm_store; auto. apply wfv_map_put; auto. apply wfarg_empty.
-  - destruct (f_kind fd) as [[]| |]; inversion E; subst; auto.
+  destruct (refl_map_edit fd mro o (msg_fget fs (f_num fd))) as [[vs'|] out'] eqn:Ee;
+    inversion E; subst; auto.
+  apply wfm_store; auto. eapply map_edit_wf; eauto.
 Qed.
 
 Lemma step_wf : forall S D tid ro op fs u m' out,
@@ -503,7 +523,7 @@ Proof.
   - inversion E; subst; auto.
   - inversion E; subst; auto.
   - destruct ro; inversion E; subst; auto. cbn [fst].
-    apply wfm_set; auto. cbn in Hop. rewrite Hf in Hop. auto.
+    apply wfm_set; auto. cbn in Hop. rewrite Hf in Hop. apply andb_true_iff in Hop. tauto.
   - destruct ro; inversion E; subst; auto. cbn [fst]. apply wfm_fdel; auto.
   - destruct ro; [inversion E; subst; auto|].
     destruct (_ || _); [inversion E; subst; auto|].
@@ -609,6 +629,7 @@ Proof.
         -- discriminate.
         -- apply wfv_one. apply val_wfarg; auto.
     + destruct (ro && w); [inversion E; subst; auto|].
+      destruct (refl_is_list fd) eqn:Kl; cbn [negb] in E; [|inversion E; subst; auto].
       destruct (refl_kind_is_msg (f_kind fd)) eqn:K; cbn [negb] in E; [|inversion E; subst; auto].
       pose proof (wf_fget S md fs f fd H Hf) as Hold.
       destruct (nth_error (msg_fget fs f) (N.to_nat i)) as [sub|] eqn:En; [|inversion E; subst; auto].
@@ -627,6 +648,7 @@ Proof.
       * apply replace_nth_nonnil; auto.
       * apply wfv_replace; auto. apply val_wfarg; auto.
     + destruct (ro && w); [inversion E; subst; auto|].
+      destruct (refl_is_map fd) eqn:Kl; cbn [negb] in E; [|inversion E; subst; auto].
       destruct (refl_kind_is_msg (f_kind fd)) eqn:K; cbn [negb] in E; [|inversion E; subst; auto].
       pose proof (wf_fget S md fs f fd H Hf) as Hold.
       destruct (refl_map_get (msg_fget fs f) k) as [sub|] eqn:En; [|inversion E; subst; auto].
@@ -722,6 +744,7 @@ Proof.
            destruct (refl_focus S D w rest _ false op (sf, su)) as [m0 r0] eqn:Ef; cbn [snd] in *;
               first [exact B | pose proof (f_equal snd Ef) as Er; cbn [snd] in Er; rewrite <- Er; exact B].
     + destruct (ro && w); [left; intros; reflexivity|].
+      destruct (refl_is_list fd) eqn:Kl; cbn [negb]; [|left; intros; reflexivity].
       destruct (refl_kind_is_msg (f_kind fd)) eqn:K; cbn [negb]; [|left; intros; reflexivity].
       pose proof (wf_fget S md fs f fd H Hf) as Hold.
       destruct (nth_error (msg_fget fs f) (N.to_nat i)) as [sub|] eqn:En; [|left; intros; reflexivity].
@@ -738,6 +761,7 @@ Proof.
         destruct (refl_focus S D w rest _ false op (sf, su)) as [m0 r0] eqn:Ef; cbn [snd] in *;
               first [exact B | pose proof (f_equal snd Ef) as Er; cbn [snd] in Er; rewrite <- Er; exact B].
     + destruct (ro && w); [left; intros; reflexivity|].
+      destruct (refl_is_map fd) eqn:Kl; cbn [negb]; [|left; intros; reflexivity].
       destruct (refl_kind_is_msg (f_kind fd)) eqn:K; cbn [negb]; [|left; intros; reflexivity].
       pose proof (wf_fget S md fs f fd H Hf) as Hold.
       destruct (refl_map_get (msg_fget fs f) k) as [sub|] eqn:En; [|left; intros; reflexivity].
@@ -885,7 +909,7 @@ Proof.
   pose proof (find_field_num _ _ _ Hf) as Hn. subst f.
   destruct (negb (refl_is_list fd)); auto.
   rewrite andb_false_r. rewrite Hh. cbn [negb andb].
-  unfold refl_list_op. unfold refl_has in Hh.
+  unfold refl_list_op, refl_list_edit. unfold refl_has in Hh.
   destruct (msg_fget fs (f_num fd)); [|discriminate].
   destruct o; try contradiction; cbn; auto.
   destruct i; reflexivity.
@@ -902,7 +926,7 @@ Proof.
   pose proof (find_field_num _ _ _ Hf) as Hn. subst f.
   destruct (negb (refl_is_map fd)); auto.
   rewrite andb_false_r. rewrite Hh. cbn [negb andb].
-  unfold refl_map_op. destruct o; try contradiction; cbn; auto.
+  unfold refl_map_op, refl_map_edit. destruct o; try contradiction; cbn; auto.
 Qed.
 
 (* the read-only empty message: every write panics, nothing changes *)
